@@ -1,5 +1,5 @@
 (* Proofs about Model/Convert.v (C19). *)
-From Coq Require Import List NArith Bool Permutation Lia.
+From Coq Require Import List Arith NArith Bool Permutation Lia.
 From SV Require Import Model.Convert.
 Import ListNotations.
 
@@ -474,3 +474,135 @@ Section Conv.
     destruct Rb as (i & l & _ & _ & _ & _ & _ & Hd). exact Hd.
   Qed.
 End Conv.
+
+(* ------------------------------------------------------------------------------------------- *)
+(* content writer under a writer ref *)
+Section Writer.
+  Context {byte : Type}.
+  Local Notation wst := (@wst byte).
+  Local Notation attempt := (@attempt byte).
+
+  Lemma size_ok_exact : forall (d : list byte), size_ok d (length d) = true.
+  Proof. intros d. unfold size_ok. rewrite Nat.eqb_refl. apply orb_true_r. Qed.
+
+  Lemma alookup_adel_same : forall V (m : list (N * V)) k, alookup (adel m k) k = None.
+  Proof.
+    induction m as [|[k0 v0] t IH]; intros k; simpl; [reflexivity|].
+    destruct (N.eqb_spec k0 k) as [E|NE]; [apply IH|]. simpl.
+    destruct (N.eqb_spec k0 k); [contradiction|apply IH].
+  Qed.
+
+  Lemma alookup_adel_other : forall V (m : list (N * V)) k k', k <> k' -> alookup (adel m k) k' = alookup m k'.
+  Proof.
+    induction m as [|[k0 v0] t IH]; intros k k' NE; simpl; [reflexivity|].
+    destruct (N.eqb_spec k0 k) as [E|NE0].
+    - subst k0. rewrite IH by assumption. destruct (N.eqb_spec k k'); [contradiction|reflexivity].
+    - simpl. rewrite IH by assumption. reflexivity.
+  Qed.
+
+  (* a completed attempt commits exactly the bytes of ITS build, whatever was left under the ref, and leaves no ingest *)
+  Lemma attempt_completed : forall (s : wst) r bs,
+    let '(s', out) := attempt_step s (Att r bs None) in
+    out = Some bs /\ w_blobs s' = bs :: w_blobs s /\ alookup (w_ing s') r = None
+    /\ (forall r', r <> r' -> alookup (w_ing s') r' = alookup (w_ing s) r').
+  Proof.
+    intros s r bs. unfold attempt_step. simpl app. rewrite size_ok_exact. simpl.
+    repeat split; [apply alookup_adel_same|intros r' NE; apply alookup_adel_other; assumption].
+  Qed.
+
+  (* an interrupted attempt commits nothing and leaves the bytes it wrote (only those) under the ref *)
+  Lemma attempt_interrupted : forall (s : wst) r bs k,
+    let '(s', out) := attempt_step s (Att r bs (Some k)) in
+    out = None /\ w_blobs s' = w_blobs s /\ alookup (w_ing s') r = Some (firstn k bs).
+  Proof. intros s r bs k. unfold attempt_step. simpl. repeat split. apply alookup_aset_same. Qed.
+
+  Lemma attempt_step_out : forall (s : wst) a, snd (attempt_step s a) = expected a.
+  Proof.
+    intros s [r bs [k|]]; unfold attempt_step; simpl; [reflexivity|].
+    rewrite size_ok_exact. reflexivity.
+  Qed.
+
+  Lemma attempt_step_blobs : forall (s : wst) a,
+    w_blobs (fst (attempt_step s a)) = match expected a with Some b => b :: w_blobs s | None => w_blobs s end.
+  Proof.
+    intros s [r bs [k|]]; unfold attempt_step; simpl; [reflexivity|].
+    rewrite size_ok_exact. reflexivity.
+  Qed.
+
+  (* every history of attempts on any refs (interleaved layers, any number of interruptions at any byte, retries with
+     other builds): each attempt commits its own build or nothing; the committed blobs are exactly the completed builds *)
+  Lemma run_attempts_spec : forall (l : list attempt) (s : wst),
+    snd (run_attempts s l) = map expected l
+    /\ w_blobs (fst (run_attempts s l))
+       = rev (flat_map (fun a => match expected a with Some b => [b] | None => [] end) l) ++ w_blobs s.
+  Proof.
+    induction l as [|a t IH]; intros s; simpl; [split; reflexivity|].
+    destruct (attempt_step s a) as [s1 o] eqn:E1.
+    destruct (run_attempts s1 t) as [s2 os] eqn:E2. simpl.
+    destruct (IH s1) as [I1 I2]. rewrite E2 in I1, I2. simpl in I1, I2.
+    assert (O : o = expected a) by (rewrite <- (attempt_step_out s a), E1; reflexivity).
+    assert (B := attempt_step_blobs s a). rewrite E1 in B. simpl in B.
+    split; [rewrite I1, O; reflexivity|].
+    rewrite I2, B. destruct (expected a) as [b|]; simpl; [|reflexivity].
+    rewrite <- app_assoc. reflexivity.
+  Qed.
+
+  (* without Truncate(0) a non-empty leftover makes the Commit of a non-empty build fail: never a mixed blob, never progress *)
+  Lemma resume_variant_fails : forall (s : wst) r bs,
+    resume s r <> [] -> bs <> [] -> snd (attempt_step_resume s (Att r bs None)) = None.
+  Proof.
+    intros s r bs NW NB. unfold attempt_step_resume.
+    destruct (size_ok (resume s r ++ bs) (length bs)) eqn:E; [|reflexivity].
+    exfalso. unfold size_ok in E. apply orb_true_iff in E. destruct E as [E|E]; apply Nat.eqb_eq in E.
+    - destruct bs; [congruence|discriminate].
+    - rewrite app_length in E. destruct (resume s r); [congruence|simpl in E; lia].
+  Qed.
+End Writer.
+
+(* the "resume by skipping the offset" variant commits a blob that is not the new build *)
+Lemma skip_variant_refuted :
+  exists (s : @wst N) a d, snd (attempt_step_skip s a) = Some d /\ expected a <> Some d.
+Proof.
+  exists (mkW [(7%N, [1%N])] []), (Att 7%N [2%N; 3%N] None), [1%N; 3%N]. split; [reflexivity|discriminate].
+Qed.
+
+(* ------------------------------------------------------------------------------------------- *)
+(* external-TOC compressor: per-conversion buf *)
+
+Lemma crun_app : forall sh s a b, crun sh s (a ++ b) = crun sh (crun sh s a) b.
+Proof. intros. unfold crun. apply fold_left_app. Qed.
+
+Lemma crun_keeps_buf : forall os s i t,
+  no_gen i os -> alookup (c_bufs s) i = Some t -> alookup (c_bufs (crun false s os)) i = Some t.
+Proof.
+  induction os as [|o os IH]; intros s i t NG E; simpl; [exact E|].
+  apply IH.
+  - intros t' I. apply (NG t'). right. exact I.
+  - destruct o as [j t'|j d]; simpl.
+    + rewrite alookup_aset_other; [exact E|]. intros EQ. subst j. apply (NG t'). left. reflexivity.
+    + destruct (alookup (c_bufs s) j); exact E.
+Qed.
+
+(* any schedule: what conversion i stores (and records for its layer digest) is the TOC conversion i generated, whatever the
+   other conversions generate or store in between *)
+Lemma store_gets_own_toc : forall os1 os2 s i t d,
+  no_gen i os2 ->
+  alookup (c_map (crun false s (os1 ++ GenTOC i t :: os2 ++ [StoreTOC i d]))) d = Some t.
+Proof.
+  intros os1 os2 s i t d NG.
+  rewrite crun_app. simpl. change (fold_left (cstep false) (os2 ++ [StoreTOC i d]) ?x) with (crun false x (os2 ++ [StoreTOC i d])).
+  rewrite crun_app. simpl.
+  rewrite (crun_keeps_buf os2 _ i t NG) by (simpl; apply alookup_aset_same).
+  simpl. apply alookup_aset_same.
+Qed.
+
+(* one compressor shared by all conversions: A generates, B generates, A stores B's TOC under A's digest *)
+Lemma shared_compressor_refuted :
+  exists os i t d, (exists os1 os2, os = os1 ++ GenTOC i t :: os2 ++ [StoreTOC i d] /\ no_gen i os2)
+    /\ alookup (c_map (crun true (mkC [] []) os)) d <> Some t.
+Proof.
+  exists [GenTOC 1 (11, 100); GenTOC 2 (22, 200); StoreTOC 1 51]%N, 1%N, (11, 100)%N, 51%N. split.
+  - exists [], [GenTOC 2 (22, 200)%N]. split; [reflexivity|].
+    intros t [E|[]]. discriminate.
+  - vm_compute. discriminate.
+Qed.
